@@ -233,19 +233,26 @@ mod verif_replay_search_gk {
         m.conserved()?;
         let h = gk.last_known_block_height.load(Ordering::Acquire);
         if h != m.height {
-            return Err(format!("the Gatekeeper's height is {h}, the chain's {}", m.height));
+            return Err(format!("{{C09}} the Gatekeeper's height is {h}, the chain's {}", m.height));
         }
         let mem = gk.registered_users.lock().unwrap().clone();
         let db = gk.dbm.lock().unwrap().load_all_users();
         for (what, map) in [("in memory", &mem), ("in the database", &db)] {
             if map.len() != m.users.len() {
-                return Err(format!("{} users {what}, expected {}", map.len(), m.users.len()));
+                return Err(format!("{{C09}} {} users {what}, expected {}", map.len(), m.users.len()));
             }
             for u in 0..2 {
                 let got = map.get(&w.users[u]).map(|i| (i.available_slots, i.subscription_start, i.subscription_expiry));
                 let want = m.users.get(&u).map(|i| (i.avail, i.start, i.expiry));
                 if got != want {
-                    return Err(format!("user {u} {what}: (available, start, expiry) = {:?}, expected {:?}", got, want));
+                    // a wrong balance is a slot-accounting matter (C07), a wrong window or a missing / surviving user a subscription matter (C09)
+                    let tag = match (got, want) {
+                        (Some(g), Some(w)) if (g.1, g.2) == (w.1, w.2) => "{C07}",
+                        (Some(g), Some(w)) if g.0 == w.0 => "{C09}",
+                        (Some(_), Some(_)) => "{C07,C09}",
+                        _ => "{C09}",
+                    };
+                    return Err(format!("{tag} user {u} {what}: (available, start, expiry) = {:?}, expected {:?}", got, want));
                 }
             }
         }
@@ -255,7 +262,7 @@ mod verif_replay_search_gk {
                 let got = gk.dbm.lock().unwrap().get_appointment_length(id);
                 let want = m.appts.get(&(u, l)).cloned();
                 if got != want {
-                    return Err(format!("appointment (user {u}, locator {l}): stored blob length {:?}, expected {:?}", got, want));
+                    return Err(format!("{{C04,C07}} appointment (user {u}, locator {l}): stored blob length {:?}, expected {:?}", got, want));
                 }
             }
             // conservation on the real numbers
@@ -263,25 +270,25 @@ mod verif_replay_search_gk {
                 let real = mem[&w.users[u]];
                 let occupied: u64 = (0..2).filter_map(|l| gk.dbm.lock().unwrap().get_appointment_length(w.uuid(&(u, l)))).map(|len| slots(len) as u64).sum();
                 if i.granted != real.available_slots as u64 + occupied + i.forfeited {
-                    return Err(format!("user {u}: granted {} != available {} + occupied {} + forfeited {}", i.granted, real.available_slots, occupied, i.forfeited));
+                    return Err(format!("{{C07}} user {u}: granted {} != available {} + occupied {} + forfeited {}", i.granted, real.available_slots, occupied, i.forfeited));
                 }
             }
             let got = gk.has_subscription_expired(w.users[u]).ok();
             let want = m.users.get(&u).map(|i| (m.height >= i.expiry, i.expiry));
             if got != want {
-                return Err(format!("has_subscription_expired(user {u}) = {:?}, expected {:?}", got, want));
+                return Err(format!("{{C09}} has_subscription_expired(user {u}) = {:?}, expected {:?}", got, want));
             }
             let got: Option<BTreeSet<usize>> = gk.get_user_info(w.users[u]).map(|(_, ls)| ls.iter().map(|x| w.locators.iter().position(|y| y == x).unwrap()).collect());
             let want: Option<BTreeSet<usize>> = m.users.get(&u).map(|_| m.appts.keys().filter(|k| k.0 == u).map(|k| k.1).collect());
             if got != want {
-                return Err(format!("get_user_info(user {u}) locators = {:?}, expected {:?}", got, want));
+                return Err(format!("{{C07}} get_user_info(user {u}) locators = {:?}, expected {:?}", got, want));
             }
         }
         for q in [m.height, m.height + 1, m.height + 3] {
             let got: BTreeSet<usize> = gk.get_outdated_users(q).iter().map(|x| w.users.iter().position(|y| y == x).unwrap()).collect();
             let want: BTreeSet<usize> = m.users.iter().filter(|(_, i)| q >= i.expiry.saturating_add(m.c.delta)).map(|(u, _)| *u).collect();
             if got != want {
-                return Err(format!("get_outdated_users({q}) = {:?}, expected {:?}", got, want));
+                return Err(format!("{{C09}} get_outdated_users({q}) = {:?}, expected {:?}", got, want));
             }
         }
         Ok(())
@@ -316,7 +323,13 @@ mod verif_replay_search_gk {
             let want = m.apply(op);
             let got = apply_real(&mut gk, w, &before, op);
             if got != want {
-                return Err(format!("{:?} with {:?} :: step {} returned {:?}, the contracts say {:?}", &seq[..=i], c, i + 1, got, want));
+                let tag = match (op, &got, &want) {
+                    (Op::Add(..), _, _) => "{C07}",
+                    (Op::Reg(_), Out::Reg(Ok(g)), Out::Reg(Ok(w))) if (g.1, g.2) == (w.1, w.2) => "{C07}",
+                    (Op::Reg(_), Out::Reg(Ok(g)), Out::Reg(Ok(w))) if g.0 == w.0 => "{C09}",
+                    _ => "{C07,C09}",
+                };
+                return Err(format!("{:?} with {:?} :: {tag} step {} returned {:?}, the contracts say {:?}", &seq[..=i], c, i + 1, got, want));
             }
             if let Err(e) = compare(&gk, w, &m) {
                 return Err(format!("{:?} with {:?} :: after step {}: {}", &seq[..=i], c, i + 1, e));
@@ -329,7 +342,7 @@ mod verif_replay_search_gk {
         if depth == 0 {
             *count += 1;
             let p = prefix.clone();
-            return std::panic::catch_unwind(std::panic::AssertUnwindSafe(|| run(w, c, &p))).unwrap_or_else(|_| Err(format!("{:?} with {:?} :: the real code panicked", p, c)));
+            return std::panic::catch_unwind(std::panic::AssertUnwindSafe(|| run(w, c, &p))).unwrap_or_else(|_| Err(format!("{:?} with {:?} :: {{C11}} the real code panicked", p, c)));
         }
         for op in ops {
             prefix.push(op.clone());
